@@ -127,7 +127,8 @@ def run_case(case, ctx):
         else:
             ctx.label("big-forest")
             # sampled indices incl. generated big ones
-            idxs = sorted({0, 1, n - 1, n // 2, n // 3, case["probe"] % n, (case["probe"] * 7919) % n})
+            idxs = sorted({0, 1, n - 1, n // 2, n // 3, case["probe"] % n, (case["probe"] * 7919) % n} |
+                          {i for i in (2 ** 31, 2 ** 63 - 1, 2 ** 63, 2 ** 63 + 1, 2 ** 64 + 5) if i < n})
             seen = {}
             for i in idxs:
                 a, e = canon_or_exc(lambda: forest[i])
@@ -252,8 +253,12 @@ def enum_classics(tier):
                 yield {"g": g, "table": table, "lex": "L0", "fill": ["", " "],
                        "max_len": 6 if len(g["terms"]) <= 2 else 5, "probe": 12345}
         # long input for the expression grammar: forests beyond 10^6 trees
-        yield {"g": gen.CLASSICS["sss"], "table": "LALR", "lex": "L0", "fill": [""], "max_len": 13,
-               "probe": 987654321, "only_len": 13}
+        # long inputs: forests beyond 10^6 trees and beyond 2**63 (big-integer index arithmetic)
+        for n, probe in ((13, 987654321), (24, 2 ** 40 + 12345), (40, 2 ** 63 + 977), (41, 2 ** 64 - 3)):
+            yield {"g": gen.CLASSICS["sss"], "table": "LALR", "lex": "L0", "fill": [""], "max_len": n,
+                   "probe": probe, "only_len": n}
+        yield {"g": gen.CLASSICS["ssS3"], "table": "SLR", "lex": "L0", "fill": [""], "max_len": 22,
+               "probe": 2 ** 63 - 1, "only_len": 22}
     return it()
 
 
